@@ -409,6 +409,8 @@ def run(ctx) -> None:
     ctx.guard(r19_2_3)
     ctx.guard(r19_4_5)
     from .c11 import r11_2
+    from .c11 import r11_3 as _r11_3
+    ctx.guard_as("R19.11", _r11_3)  # "integers in JWKs ... round-trip exactly": EC x / y / d are written with the curve's coordinate length (leading zero octets kept)
     ctx.guard_as("R19.6", r11_2)  # RSA integers are exported through the minimal-length codec
     ctx.note("undecided remainder: decode(encode(x)) == x and rejection of every non-alphabet character / impossible length for *all* octet strings is a property of "
              "CPython's binascii C code - outside the analysed source")
